@@ -1,4 +1,5 @@
 import Driver.Mon
+import AV.Spec.C20
 open Lean AV AV.Pub
 
 namespace Drv
@@ -189,6 +190,60 @@ def c10 (inp obs : Json) : Res :=
   match results.filter fun r => r.1.isSome with
   | [] => { agree := agree, specOk := true, why := why, nontrivial := !inconclusive }
   | (msg, cls) :: _ => { agree := agree, specOk := false, why := msg.getD "" ++ (if agree then "" else " | " ++ why), known := cls }
+
+/-! #### C20 -/
+
+def c20Step (sin sobs : Json) : Option String :=
+  let evs := libTrace sobs
+  let entry := jstr sin "entry"
+  if !(entry == "getInbox" || entry == "getOutbox" || entry == "handler") then none else
+  if (sobs.getObjVal? "panic").toOption.isSome then none else
+  let err := jstr sobs "err"
+  let getEv := evs.find? fun e => e.name == "get"
+  -- a missing value: ErrNotFound, nothing written
+  if entry == "handler" && (match getEv with | some e => e.resp == Json.mkObj [("ok", Json.null)] | none => false) then
+    (if err == "notFound" && !(evs.any fun e => e.name == "writeHeader" || e.name == "writeBody") then none
+     else some "a missing value must yield ErrNotFound with nothing written")
+  else
+  match evs.find? (fun e => e.name == "writeHeader"), evs.find? (fun e => e.name == "writeBody") with
+  | some wh, some wb =>
+    let status := (wh.args.getD 0 Json.null).getNat?.toOption.getD 0
+    let hdrs := wh.args.getD 1 Json.null
+    let raw := (wb.args.getD 1 Json.null).getStr?.toOption.getD ""
+    let body := J.norm (toJ (wb.args.getD 0 Json.null))
+    let nowT := match evs.find? (fun e => e.name == "now") with
+      | some e => (match e.resp with | .arr xs => (xs.getD 0 Json.null).getInt?.toOption.getD 0 | _ => 0)
+      | none => 0
+    if jstr hdrs "Content-Type" != contentTypeValue then some "Content-Type is not the ActivityStreams media type"
+    else if jstr hdrs "Date" != Time.imfFixdate nowT then some s!"Date header {jstr hdrs "Date"} is not the RFC 7231 form of the application clock ({Time.imfFixdate nowT})"
+    else if jstr hdrs "Digest" != Sha256.digestHeader raw then some s!"Digest header {jstr hdrs "Digest"} is not the SHA-256 of the bytes written ({Sha256.digestHeader raw})"
+    else
+      let supplied : Option J := match entry with
+        | "getOutbox" => (evs.find? fun e => e.name == "appGetOutbox").map fun e => J.norm (toJ (jget e.resp "ok"))
+        | "getInbox" => (evs.find? fun e => e.name == "appGetInbox").map fun e => J.norm (toJ (jget e.resp "ok"))
+        | _ => getEv.map fun e => J.norm (toJ (jget e.resp "ok"))
+      match supplied with
+      | none => some "a body was written although the application supplied no value"
+      | some v =>
+        if entry == "getOutbox" then (if body == v then none else some "GetOutbox body differs from the page the application supplied")
+        else if entry == "getInbox" then
+          let xs := (Val.rawList v "orderedItems").getD []
+          if !(xs.all fun j => (elemKey facts j).isSome) then none else
+          let kept := firstOcc (fun j => (elemKey facts j).getD "") xs
+          let expect := if kept.length == xs.length then v else Val.setList v "orderedItems" kept
+          if body == expect then none else some "GetInbox body is not the supplied page with later duplicates (by id) removed"
+        else
+          if !noHiddenDeep facts body then some "handler body still carries bto/bcc on the value or along its object chain"
+          else if !(eraseHiddenEverywhere body == eraseHiddenEverywhere v) then some "handler body differs from the stored value in more than bto/bcc"
+          else if (status == 410) != facts.isOrExt "Tombstone" (Val.typeName v) then some s!"status {status} for a value of type {Val.typeName v}"
+          else none
+  | _, _ => none
+
+def c20 (inp obs : Json) : Res :=
+  let (agree, why, inconclusive) := replayAll inp obs
+  match checkSteps obs c20Step with
+  | none => { agree := agree, specOk := true, why := why, nontrivial := !inconclusive && (stepsOf obs).any fun (_, o) => (libTrace o).any fun e => e.name == "writeBody" }
+  | some m => { agree := agree, specOk := false, why := m ++ (if agree then "" else " | " ++ why) }
 
 def pubGeneric (_prop : String) (inp obs : Json) : Res :=
   let (agree, why, inconclusive) := replayAll inp obs
